@@ -33,7 +33,7 @@ ASSUMPTIONS = [
 REQUIRED_COUNTERS = {"base_runs": 30, "variant_njobs": 20, "variant_ctor_seeds": 20, "variant_verbose": 8, "variant_folder": 8,
                      "variant_fresh_process": 4, "rl_runs": 4}
 SHARDS = {"quick": 16, "thorough": 16}
-SHARD_WATCHDOG = {"quick": 900, "thorough": 7200}
+SHARD_WATCHDOG = {"quick": 1500, "thorough": 10800}
 
 
 def gen_cases(tier, seed):
